@@ -1,9 +1,12 @@
 PROP = {
     "id": "C07",
-    "coq_targets": ["Properties/C07.vo", "Extract/C23Extract.vo"],
+    "coq_targets": ["Properties/C07.vo", "Properties/ServerWiring.vo", "Extract/C23Extract.vo"],
+    "more_properties_files": ["Properties/ServerWiring.v"],
     "properties_file": "Properties/C07.v",
     "theorems": ["C07_withdraws_everything", "C07_refcounts_exact", "C07_every_exit_uninits",
-                 "C07_reestablish_starts_empty", "C07_loop_detection_intact"],
+                 "C07_reestablish_starts_empty", "C07_loop_detection_intact",
+                 "Wiring_dispose_removes_everything", "Wiring_later_fsm_uses_current_chains",
+                 "Wiring_default_cluster_id_is_router_id", "Wiring_all_families_disposed"],
     "allowed_axioms": [],
     "harness": "c07",
     "modelrun": {"name": "c07", "extracted": ["c23_model"], "driver": "ocaml/c23/c23_run.ml"},
